@@ -8,6 +8,7 @@ import (
 	"crypto/x509"
 	"crypto/x509/pkix"
 	"encoding/asn1"
+	"encoding/base64"
 	"encoding/hex"
 	"encoding/json"
 	"fmt"
@@ -301,6 +302,40 @@ func runSign(m fstest.MapFS, strat int, fault *Fault) (res runResult) {
 	return
 }
 
+// currentHashes: gopki's own hash (CertificateContent.HashSum) of every entity's current effective configuration,
+// computed on a copy of the directory: what a stored `#HASH:` line is compared with.  The checks use this observed
+// value for their statements; that it equals the model's hash is a separate correspondence.
+func currentHashes(m fstest.MapFS) (out J) {
+	out = J{}
+	defer func() { recover() }()
+	cp := fstest.MapFS{}
+	for k, v := range m {
+		cp[k] = &fstest.MapFile{Data: v.Data, Mode: v.Mode, ModTime: v.ModTime}
+	}
+	d := filesystem.NewFilesystemDatabase(filesystem.NewMapFs(cp))
+	if err := d.Open(); err != nil {
+		return
+	}
+	todo := append([]string{}, d.RootEntities()...)
+	seen := map[string]bool{}
+	for len(todo) > 0 {
+		a := todo[0]
+		todo = todo[1:]
+		if seen[a] {
+			continue
+		}
+		seen[a] = true
+		todo = append(todo, d.GetSubscribers(a)...)
+		func() {
+			defer func() { recover() }()
+			if cfg, err := db.VerifValidateAndMerge(d, a); err == nil && cfg != nil {
+				out[a] = base64.StdEncoding.EncodeToString(cfg.HashSum())
+			}
+		}()
+	}
+	return
+}
+
 func buildMapFs(files []FileIn, base time.Time) fstest.MapFS {
 	m := fstest.MapFS{".": &fstest.MapFile{Mode: 0777 | fs.ModeDir}}
 	for _, f := range files {
@@ -319,6 +354,7 @@ func execPki(raw json.RawMessage) any {
 	reg := newKeyRegistry()
 	prePems, _ := observeDir(m, reg)
 	ranksPre := mtimeRanks(m)
+	hashesPre := currentHashes(m)
 	res := runSign(m, in.Strat, in.Fault)
 	after := snapshotNonPem(m)
 	same := len(before) == len(after)
@@ -331,7 +367,8 @@ func execPki(raw json.RawMessage) any {
 	verifyMatrix(pems, certs, reg)
 	return J{"openErr": res.OpenErr, "planErr": res.PlanErr, "updateErr": res.UpdateErr, "panic": res.Panic, "died": res.Died,
 		"plan": res.Plan, "generated": res.Generated, "writes": res.Writes, "t0": res.T0, "t1": res.T1,
-		"pre": prePems, "ranksPre": ranksPre, "pems": pems, "keys": reg.list(), "nonPemUnchanged": same}
+		"pre": prePems, "ranksPre": ranksPre, "pems": pems, "keys": reg.list(), "nonPemUnchanged": same,
+		"hashesPre": hashesPre, "hashesPost": currentHashes(m)}
 }
 
 var _ = bytes.Equal
